@@ -17,6 +17,20 @@ pub struct Cfg {
     pub queues: usize,
     /// FDT symbol size: 512 => an instance is several packets ("mid-FDT" exists)
     pub fdt_e: u16,
+    /// 0 = three plain objects; 1 = the first is transferred twice, the second is a carousel object
+    /// (1 s between transfers), the third has a start time 1 s after t0
+    #[serde(default)]
+    pub catalog_kind: u8,
+}
+
+pub fn catalog_of(kind: u8) -> Vec<ObjSpec> {
+    let mut v = catalog();
+    if kind == 1 {
+        v[0].count = 2;
+        v[1].carousel = Some(Carousel::Delay(1000));
+        v[2].start_ms = Some(1000);
+    }
+    v
 }
 
 pub fn catalog() -> Vec<ObjSpec> {
@@ -209,7 +223,7 @@ impl Sys for Sys11 {
 }
 
 pub fn make(cfg: &Cfg) -> Sys11 {
-    Sys11 { cfg: cfg.clone(), s: SendSys::new(&sess(cfg), Arc::new(catalog())), mon: Mon11::default() }
+    Sys11 { cfg: cfg.clone(), s: SendSys::new(&sess(cfg), Arc::new(catalog_of(cfg.catalog_kind))), mon: Mon11::default() }
 }
 
 pub fn replay(v: &serde_json::Value) -> Vec<Violation> {
@@ -232,7 +246,10 @@ pub fn configs() -> Vec<Cfg> {
                     if fdt_e == 1424 && (multiplex == 2 || queues == 1) {
                         continue;
                     }
-                    v.push(Cfg { full_fdt, multiplex, queues, fdt_e });
+                    v.push(Cfg { full_fdt, multiplex, queues, fdt_e, catalog_kind: 0 });
+                    if fdt_e == 512 {
+                        v.push(Cfg { full_fdt, multiplex, queues, fdt_e, catalog_kind: 1 });
+                    }
                 }
             }
         }
